@@ -247,6 +247,12 @@ func (r *SwitchRouter) UnmarshalJSON(data []byte) error {
 		return err
 	}
 
+	for i, c := range e.Cases {
+		if c == nil {
+			return fmt.Errorf("case %d can't be null", i)
+		}
+	}
+
 	r.operand = e.Operand
 	r.cases = e.Cases
 	r.defaultCategoryUUID = e.DefaultCategoryUUID
